@@ -72,7 +72,7 @@ func init() {
 		Technique:   "definitional checkers (differential against direct definitions) over complete small-scope enumeration + seeded random inputs; hangs/blow-ups by watchdog + isolated re-execution",
 		Assumptions: []string{"the definitions as coded in the checker are trusted", "not asserted: Mean of an empty slice, Clamp with min > max, unsigned/overflowing Range arguments, Range() with no argument", "FindMin/MaxByKey when some map lacks the key: an error or the extremum over the maps that have it"}})
 	reg(&propCfg{ID: "C14", Pkg: "./props/c14", Variants: simple(false),
-		Level:       "held on every executed case: complete enumeration of all maps with up to 3 (thorough 4) entries over 4 keys (incl. the zero key "") x 3 values x five value predicates x all key lists up to length 3, all collections of up to 3 (4) maps from a pool of 8, plus seeded random larger maps; each case executed 4 times on freshly built maps; results compared with references as sets/maps or by their defining property",
+		Level:       "held on every executed case: complete enumeration of all maps with up to 3 (thorough 4) entries over 4 keys (incl. the zero key, the empty string) x 3 values x five value predicates x all key lists up to length 3, all collections of up to 3 (4) maps from a pool of 8, plus seeded random larger maps; each case executed 4 times on freshly built maps; results compared with references as sets/maps or by their defining property",
 		Technique:   "differential monitor + defining-property checkers, each case repeated to sample map iteration orders",
 		Assumptions: []string{"the references are trusted", "Go's per-range random iteration start is the source of iteration-order diversity (4 executions per case)", "Pick with an empty key list returns an error by documentation (only its empty result is checked)"}})
 	reg(&propCfg{ID: "C15", Pkg: "./props/c15", Variants: simple(false),
